@@ -603,6 +603,15 @@ func Run(c *sexp.S, out *Out) {
 			}
 			setValue(r.storer, a[1].GoString(), decodeValue(a[2]))
 			out.Put("HSET%s", r.state())
+		case "hclear":
+			// the host empties its storer between two calls
+			r := runners[a[0].Int()]
+			if r == nil {
+				out.Put("NORUNNER")
+				continue
+			}
+			r.storer.Clear()
+			out.Put("HSET%s", r.state())
 		case "hrev":
 			// the host replaces a string variable by another value of exactly the same length (letters and digits rotated by one)
 			r := runners[a[0].Int()]
